@@ -253,6 +253,58 @@ func TestC14(t *testing.T) {
 		run.Eval("filter|" + pk)
 	}
 
+	// ---- one Filter node used by several goroutines at once: every call is judged by its own event ----------
+	nfc := run.N(20, 600)
+	for i := 0; i < nfc && !run.Stop(); i++ {
+		cr := r.Fork()
+		f := &eventlogger.Filter{Predicate: func(e *eventlogger.Event) (bool, error) {
+			switch e.Payload.(int) % 3 {
+			case 0:
+				return true, nil
+			case 1:
+				return false, nil
+			}
+			return false, errPredicate
+		}}
+		ng, per := cr.Range(2, 8), cr.Range(200, 1000)
+		bad := make([]string, ng)
+		var wg sync.WaitGroup
+		bar := rt.NewBarrier(ng)
+		for g := 0; g < ng; g++ {
+			wg.Add(1)
+			go func(g int) {
+				defer wg.Done()
+				bar.Wait()
+				for k := 0; k < per && bad[g] == ""; k++ {
+					ev := &eventlogger.Event{Type: "t", Payload: g + k}
+					out, err := f.Process(ctx, ev)
+					switch (g + k) % 3 {
+					case 0:
+						if out != ev || err != nil {
+							bad[g] = fmt.Sprintf("predicate true: forwarded=%v err=%v", out == ev, err)
+						}
+					case 1:
+						if out != nil || err != nil {
+							bad[g] = fmt.Sprintf("predicate false: forwarded=%v err=%v", out != nil, err)
+						}
+					default:
+						if out != nil || err == nil {
+							bad[g] = fmt.Sprintf("predicate error: forwarded=%v err=%v", out != nil, err)
+						}
+					}
+				}
+			}(g)
+		}
+		wg.Wait()
+		for g := range bad {
+			if bad[g] != "" {
+				run.Violation("history-pattern:filter-concurrent", "one Filter used by "+fmt.Sprint(ng)+" goroutines: a call was not judged by its own event's predicate outcome: "+bad[g], nil)
+				break
+			}
+		}
+		run.Eval(fmt.Sprintf("filter-conc|%d", ng))
+	}
+
 	// ---- Event.FormattedAs / Format: race-free last-writer-wins table ---------------------------------
 	nt := run.N(600, 20000)
 	for i := 0; i < nt && !run.Stop(); i++ {
